@@ -3,6 +3,9 @@
 #ifndef LIBID
 #  define LIBID 1
 #endif
+#ifndef GUEST_YIELD
+#  define GUEST_YIELD()
+#endif
 #ifdef __cplusplus
 extern "C" {
 #endif
@@ -14,12 +17,15 @@ int call_cb_n(int (*cb)(int), int v, int n)
 {
   int s = 0, i;
   g_calls[0]++;
+  GUEST_YIELD();
   for (i = 0; i < n; i++) s += cb(v + i);
+  GUEST_YIELD();
   return s;
 }
 int lib_id(void)
 {
   g_calls[1]++;
+  GUEST_YIELD();
   return LIBID;
 }
 /* same prefix as lib_id on purpose */
